@@ -234,4 +234,223 @@ theorem reciprocal_dual_dots (b : Box K) (h : b.vects.det ≠ 0) :
 theorem recip_depends_on_vects_only (b b' : Box K) (h : b.vects = b'.vects) : b.recip = b'.recip := by
   simp only [Box.recip, h]
 
+
+/-! ### inside / outside -/
+
+theorem dot_vdiv (n p : V3 K) (l : K) : V3.dot (vdiv n l) p = V3.dot n p / l := by
+  simp only [vdiv, V3.dot]; ring
+
+theorem below_incl_iff (n pt p : V3 K) (lam : K) (hl : 0 < lam) :
+    below ⟨n, pt⟩ lam p true = true ↔ V3.dot n (p - pt) ≤ 0 := by
+  simp only [below, if_true, decide_eq_true_eq, dot_vdiv, V3.dot_sub]
+  rw [div_le_div_iff_of_pos_right hl, sub_nonpos]
+
+theorem below_excl_iff (n pt p : V3 K) (lam : K) (hl : 0 < lam) :
+    below ⟨n, pt⟩ lam p false = true ↔ V3.dot n (p - pt) < 0 := by
+  simp only [below, Bool.false_eq_true, if_false, decide_eq_true_eq, dot_vdiv, V3.dot_sub]
+  rw [div_lt_div_iff_of_pos_right hl, sub_neg]
+
+theorem rel_x (b : Box K) (p : V3 K) :
+    (b.cartToRel p).x = V3.dot (V3.cross b.vects.r1 b.vects.r2) (p - b.origin) / b.vects.det := by
+  simp only [Box.cartToRel, Box.recip, M3.mulVec, M3.inv, M3.transpose, V3.dot]; ring
+theorem rel_y (b : Box K) (p : V3 K) :
+    (b.cartToRel p).y = V3.dot (V3.cross b.vects.r2 b.vects.r0) (p - b.origin) / b.vects.det := by
+  simp only [Box.cartToRel, Box.recip, M3.mulVec, M3.inv, M3.transpose, V3.dot]; ring
+theorem rel_z (b : Box K) (p : V3 K) :
+    (b.cartToRel p).z = V3.dot (V3.cross b.vects.r0 b.vects.r1) (p - b.origin) / b.vects.det := by
+  simp only [Box.cartToRel, Box.recip, M3.mulVec, M3.inv, M3.transpose, V3.dot]; ring
+
+structure Lams.Pos (l : Lams K) : Prop where
+  h0 : 0 < l.l0
+  h1 : 0 < l.l1
+  h2 : 0 < l.l2
+  h3 : 0 < l.l3
+  h4 : 0 < l.l4
+  h5 : 0 < l.l5
+
+theorem inside_incl_iff_rel (b : Box K) (hd : 0 < b.vects.det) (lam : Lams K) (hl : lam.Pos) (p : V3 K) :
+    inside b lam p true = true ↔ RelIn (b.cartToRel p) := by
+  obtain ⟨N0, hN0⟩ : ∃ N, N = V3.dot (V3.cross b.vects.r1 b.vects.r2) (p - b.origin) := ⟨_, rfl⟩
+  obtain ⟨N1, hN1⟩ : ∃ N, N = V3.dot (V3.cross b.vects.r2 b.vects.r0) (p - b.origin) := ⟨_, rfl⟩
+  obtain ⟨N2, hN2⟩ : ∃ N, N = V3.dot (V3.cross b.vects.r0 b.vects.r1) (p - b.origin) := ⟨_, rfl⟩
+  obtain ⟨d, hdd⟩ : ∃ d, d = b.vects.det := ⟨_, rfl⟩
+  have e0 : V3.dot (V3.cross b.vects.r2 b.vects.r1) (p - b.origin) = -N0 := by
+    rw [hN0]; simp only [V3.dot, V3.cross, V3.sub_def]; ring
+  have e1 : V3.dot (V3.cross b.vects.r0 b.vects.r2) (p - b.origin) = -N1 := by
+    rw [hN1]; simp only [V3.dot, V3.cross, V3.sub_def]; ring
+  have e2 : V3.dot (V3.cross b.vects.r1 b.vects.r0) (p - b.origin) = -N2 := by
+    rw [hN2]; simp only [V3.dot, V3.cross, V3.sub_def]; ring
+  have e3 : V3.dot (V3.cross b.vects.r1 b.vects.r2) (p - (b.origin + b.vects.r0)) = N0 - d := by
+    rw [hN0, hdd]; simp only [M3.det, V3.dot, V3.cross, V3.sub_def, V3.add_def]; ring
+  have e4 : V3.dot (V3.cross b.vects.r2 b.vects.r0) (p - (b.origin + b.vects.r1)) = N1 - d := by
+    rw [hN1, hdd]; simp only [M3.det, V3.dot, V3.cross, V3.sub_def, V3.add_def]; ring
+  have e5 : V3.dot (V3.cross b.vects.r0 b.vects.r1) (p - (b.origin + b.vects.r2)) = N2 - d := by
+    rw [hN2, hdd]; simp only [M3.det, V3.dot, V3.cross, V3.sub_def, V3.add_def]; ring
+  rw [← hdd] at hd
+  simp only [inside, Bool.and_eq_true, below_incl_iff _ _ _ _ hl.h0, below_incl_iff _ _ _ _ hl.h1,
+    below_incl_iff _ _ _ _ hl.h2, below_incl_iff _ _ _ _ hl.h3, below_incl_iff _ _ _ _ hl.h4,
+    below_incl_iff _ _ _ _ hl.h5, RelIn, rel_x, rel_y, rel_z, e0, e1, e2, e3, e4, e5, ← hN0, ← hN1, ← hN2, ← hdd,
+    le_div_iff₀ hd, div_le_iff₀ hd, zero_mul, one_mul]
+  constructor
+  · rintro ⟨⟨⟨⟨⟨a0, a1⟩, a2⟩, a3⟩, a4⟩, a5⟩
+    refine ⟨?_, ?_, ?_, ?_, ?_, ?_⟩ <;> linarith
+  · rintro ⟨a0, a1, a2, a3, a4, a5⟩
+    refine ⟨⟨⟨⟨⟨?_, ?_⟩, ?_⟩, ?_⟩, ?_⟩, ?_⟩ <;> linarith
+
+theorem inside_excl_iff_rel (b : Box K) (hd : 0 < b.vects.det) (lam : Lams K) (hl : lam.Pos) (p : V3 K) :
+    inside b lam p false = true ↔ RelInStrict (b.cartToRel p) := by
+  obtain ⟨N0, hN0⟩ : ∃ N, N = V3.dot (V3.cross b.vects.r1 b.vects.r2) (p - b.origin) := ⟨_, rfl⟩
+  obtain ⟨N1, hN1⟩ : ∃ N, N = V3.dot (V3.cross b.vects.r2 b.vects.r0) (p - b.origin) := ⟨_, rfl⟩
+  obtain ⟨N2, hN2⟩ : ∃ N, N = V3.dot (V3.cross b.vects.r0 b.vects.r1) (p - b.origin) := ⟨_, rfl⟩
+  obtain ⟨d, hdd⟩ : ∃ d, d = b.vects.det := ⟨_, rfl⟩
+  have e0 : V3.dot (V3.cross b.vects.r2 b.vects.r1) (p - b.origin) = -N0 := by
+    rw [hN0]; simp only [V3.dot, V3.cross, V3.sub_def]; ring
+  have e1 : V3.dot (V3.cross b.vects.r0 b.vects.r2) (p - b.origin) = -N1 := by
+    rw [hN1]; simp only [V3.dot, V3.cross, V3.sub_def]; ring
+  have e2 : V3.dot (V3.cross b.vects.r1 b.vects.r0) (p - b.origin) = -N2 := by
+    rw [hN2]; simp only [V3.dot, V3.cross, V3.sub_def]; ring
+  have e3 : V3.dot (V3.cross b.vects.r1 b.vects.r2) (p - (b.origin + b.vects.r0)) = N0 - d := by
+    rw [hN0, hdd]; simp only [M3.det, V3.dot, V3.cross, V3.sub_def, V3.add_def]; ring
+  have e4 : V3.dot (V3.cross b.vects.r2 b.vects.r0) (p - (b.origin + b.vects.r1)) = N1 - d := by
+    rw [hN1, hdd]; simp only [M3.det, V3.dot, V3.cross, V3.sub_def, V3.add_def]; ring
+  have e5 : V3.dot (V3.cross b.vects.r0 b.vects.r1) (p - (b.origin + b.vects.r2)) = N2 - d := by
+    rw [hN2, hdd]; simp only [M3.det, V3.dot, V3.cross, V3.sub_def, V3.add_def]; ring
+  rw [← hdd] at hd
+  simp only [inside, Bool.and_eq_true, below_excl_iff _ _ _ _ hl.h0, below_excl_iff _ _ _ _ hl.h1,
+    below_excl_iff _ _ _ _ hl.h2, below_excl_iff _ _ _ _ hl.h3, below_excl_iff _ _ _ _ hl.h4,
+    below_excl_iff _ _ _ _ hl.h5, RelInStrict, rel_x, rel_y, rel_z, e0, e1, e2, e3, e4, e5, ← hN0, ← hN1, ← hN2, ← hdd,
+    lt_div_iff₀ hd, div_lt_iff₀ hd, zero_mul, one_mul]
+  constructor
+  · rintro ⟨⟨⟨⟨⟨a0, a1⟩, a2⟩, a3⟩, a4⟩, a5⟩
+    refine ⟨?_, ?_, ?_, ?_, ?_, ?_⟩ <;> linarith
+  · rintro ⟨a0, a1, a2, a3, a4, a5⟩
+    refine ⟨⟨⟨⟨⟨?_, ?_⟩, ?_⟩, ?_⟩, ?_⟩, ?_⟩ <;> linarith
+
+/-- **inside ⇔ relative coordinates in the unit cube**, for every right-handed cell, every origin and
+    whatever positive numbers the six plane normals were divided by: boundary included
+    (`inclusive=True`, closed cube) or excluded (`inclusive=False`, open cube). -/
+theorem inside_iff_rel (b : Box K) (hd : 0 < b.vects.det) (lam : Lams K) (hl : lam.Pos) (p : V3 K) :
+    (inside b lam p true = true ↔ RelIn (b.cartToRel p)) ∧
+    (inside b lam p false = true ↔ RelInStrict (b.cartToRel p)) :=
+  ⟨inside_incl_iff_rel b hd lam hl p, inside_excl_iff_rel b hd lam hl p⟩
+
+/-- in particular the answer does not depend on the normalisation of the plane normals. -/
+theorem inside_indep_of_norms (b : Box K) (hd : 0 < b.vects.det) (lam lam' : Lams K) (hl : lam.Pos)
+    (hl' : lam'.Pos) (p : V3 K) (incl : Bool) : inside b lam p incl = inside b lam' p incl := by
+  cases incl
+  · exact Bool.eq_iff_iff.mpr ((inside_excl_iff_rel b hd lam hl p).trans (inside_excl_iff_rel b hd lam' hl' p).symm)
+  · exact Bool.eq_iff_iff.mpr ((inside_incl_iff_rel b hd lam hl p).trans (inside_incl_iff_rel b hd lam' hl' p).symm)
+
+example : ∃ (b : Box ℚ) (lam : Lams ℚ) (p q : V3 ℚ), 0 < b.vects.det ∧ lam.Pos ∧ b.origin ≠ ⟨0, 0, 0⟩ ∧
+    inside b lam p true = true ∧ inside b lam p false = false ∧ inside b lam q true = false :=
+  ⟨⟨⟨⟨2, 0, 0⟩, ⟨1/2, 3, 0⟩, ⟨-1, 1/4, 5⟩⟩, ⟨1, -2, 3⟩⟩, ⟨1, 2, 3, 1/2, 5, 7⟩, ⟨1, -2, 3⟩, ⟨0, 0, 0⟩,
+    by decide +kernel, ⟨by decide +kernel, by decide +kernel, by decide +kernel, by decide +kernel,
+      by decide +kernel, by decide +kernel⟩, by decide +kernel, by decide +kernel, by decide +kernel,
+    by decide +kernel⟩
+
+/-- `Shape.outside(pos, inclusive)` is the complement of `inside(pos, not inclusive)` … -/
+theorem outside_eq_not_inside (b : Box K) (lam : Lams K) (p : V3 K) (incl : Bool) :
+    outside b lam p incl = !(inside b lam p (!incl)) := rfl
+
+/-- … hence: outside (boundary excluded) ⇔ not in the closed unit cube; outside (boundary included) ⇔
+    not in the open unit cube. -/
+theorem outside_iff_rel (b : Box K) (hd : 0 < b.vects.det) (lam : Lams K) (hl : lam.Pos) (p : V3 K) :
+    (outside b lam p false = true ↔ ¬ RelIn (b.cartToRel p)) ∧
+    (outside b lam p true = true ↔ ¬ RelInStrict (b.cartToRel p)) := by
+  constructor
+  · rw [outside_eq_not_inside, Bool.not_false, Bool.not_eq_true', ← Bool.not_eq_true,
+      inside_incl_iff_rel b hd lam hl p]
+  · rw [outside_eq_not_inside, Bool.not_true, Bool.not_eq_true', ← Bool.not_eq_true,
+      inside_excl_iff_rel b hd lam hl p]
+
+/-! ### volume -/
+
+theorem volume_eq_absdet (b : Box K) : volume b = |b.vects.det| := by
+  simp only [volume, absK_eq_abs, M3.det]
+
+theorem volume_nonneg (b : Box K) : 0 ≤ volume b := by
+  rw [volume_eq_absdet]; exact abs_nonneg _
+
+theorem volume_normal (b : Box K) (h : b.isLammpsNorm = true) :
+    volume b = b.vects.r0.x * b.vects.r1.y * b.vects.r2.z := by
+  obtain ⟨hy, hz, hbz, hx, hly, hlz⟩ := (isLammpsNorm_iff b).mp h
+  rw [volume_eq_absdet, M3.det_def', hy, hz, hbz]
+  have : 0 < b.vects.r0.x * b.vects.r1.y * b.vects.r2.z := mul_pos (mul_pos hx hly) hlz
+  rw [abs_of_pos (by linarith)]; ring
+
+theorem volume_sq_eq_gram_det (b : Box K) : volume b * volume b = (gram b.vects).det := by
+  rw [volume_eq_absdet, abs_mul_abs_self, gram_det]
+
+theorem maxAbs_eq (m : M3 K) : maxAbs m =
+    max (max (max |m.r0.x| |m.r0.y|) |m.r0.z|)
+      (max (max (max |m.r1.x| |m.r1.y|) |m.r1.z|) (max (max |m.r2.x| |m.r2.y|) |m.r2.z|)) := by
+  simp only [maxAbs, maxK_eq_max, absK_eq_abs]
+
+theorem maxAbs_le_iff (m : M3 K) (c : K) : maxAbs m ≤ c ↔
+    |m.r0.x| ≤ c ∧ |m.r0.y| ≤ c ∧ |m.r0.z| ≤ c ∧ |m.r1.x| ≤ c ∧ |m.r1.y| ≤ c ∧ |m.r1.z| ≤ c ∧
+    |m.r2.x| ≤ c ∧ |m.r2.y| ≤ c ∧ |m.r2.z| ≤ c := by
+  rw [maxAbs_eq]; simp only [max_le_iff, and_assoc]
+
+theorem maxAbs_nonneg (m : M3 K) : 0 ≤ maxAbs m :=
+  le_trans (abs_nonneg m.r0.x) ((maxAbs_le_iff m _).mp le_rfl).1
+
+theorem cleanEntry_eq (thr M x : K) : cleanEntry thr M x = if |x| ≤ thr * M then 0 else x := by
+  simp only [cleanEntry, absK_eq_abs]
+
+theorem abs_cleanEntry_le (thr M x : K) : |cleanEntry thr M x| ≤ |x| := by
+  rw [cleanEntry_eq]; split
+  · simp only [abs_zero, abs_nonneg]
+  · exact le_rfl
+
+theorem cleanEntry_cleanEntry (thr M M' x : K) (h0 : 0 ≤ thr * M') (hle : thr * M' ≤ thr * M) :
+    cleanEntry thr M' (cleanEntry thr M x) = cleanEntry thr M x := by
+  simp only [cleanEntry_eq]
+  by_cases h : |x| ≤ thr * M
+  · simp only [h, if_true, abs_zero, h0]
+  · have h' : ¬ |x| ≤ thr * M' := fun hh => h (le_trans hh hle)
+    simp only [h, if_false, h']
+
+theorem maxAbs_clean_le (thr : K) (m : M3 K) : maxAbs (cleanVects thr m) ≤ maxAbs m := by
+  obtain ⟨h1, h2, h3, h4, h5, h6, h7, h8, h9⟩ := (maxAbs_le_iff m _).mp le_rfl
+  rw [maxAbs_le_iff]
+  simp only [cleanVects, cleanV]
+  exact ⟨le_trans (abs_cleanEntry_le _ _ _) h1, le_trans (abs_cleanEntry_le _ _ _) h2,
+    le_trans (abs_cleanEntry_le _ _ _) h3, le_trans (abs_cleanEntry_le _ _ _) h4,
+    le_trans (abs_cleanEntry_le _ _ _) h5, le_trans (abs_cleanEntry_le _ _ _) h6,
+    le_trans (abs_cleanEntry_le _ _ _) h7, le_trans (abs_cleanEntry_le _ _ _) h8,
+    le_trans (abs_cleanEntry_le _ _ _) h9⟩
+
+/-- the setter clean-up is idempotent (any non-negative threshold). -/
+theorem clean_idem (thr : K) (hthr : 0 ≤ thr) (m : M3 K) :
+    cleanVects thr (cleanVects thr m) = cleanVects thr m := by
+  have h0 : 0 ≤ thr * maxAbs (cleanVects thr m) := mul_nonneg hthr (maxAbs_nonneg _)
+  have hle : thr * maxAbs (cleanVects thr m) ≤ thr * maxAbs m :=
+    mul_le_mul_of_nonneg_left (maxAbs_clean_le thr m) hthr
+  have key := fun x => cleanEntry_cleanEntry thr (maxAbs m) (maxAbs (cleanVects thr m)) x h0 hle
+  conv_lhs => rw [cleanVects]
+  simp only [cleanV]
+  ext <;> simp only [cleanVects, cleanV] <;> exact key _
+
+
+/-- every box the setters produce is clean, so the clean-up in the next setter does nothing to it. -/
+theorem setVects_isClean (thr : K) (hthr : 0 ≤ thr) (v : M3 K) (o : V3 K) : IsClean thr (setVects thr v o) :=
+  clean_idem thr hthr v
+
+/-- the executed path (`set_lengths` = build + setter clean-up) on a box the setters produced. -/
+theorem lengths_roundtrip_clean (thr : K) (b : Box K) (hc : IsClean thr b) (h : b.isLammpsNorm = true) :
+    ∃ p, lengths? b = some p ∧ setLengths? thr p b.origin = some b := by
+  obtain ⟨p, h1, h2⟩ := lengths_roundtrip b h
+  refine ⟨p, h1, ?_⟩
+  simp only [setLengths?, h2, Option.map_some]
+  have : cleanVects thr b.vects = b.vects := hc
+  rw [this]
+
+theorem hilos_roundtrip_clean (thr : K) (b : Box K) (hc : IsClean thr b) (h : b.isLammpsNorm = true) :
+    ∃ p, hilos? b = some p ∧ setHiLos? thr p = some b := by
+  obtain ⟨p, h1, h2⟩ := hilos_roundtrip b h
+  refine ⟨p, h1, ?_⟩
+  simp only [setHiLos?, h2, Option.map_some]
+  have : cleanVects thr b.vects = b.vects := hc
+  rw [this]
+
 end Atomman.C01
